@@ -1,5 +1,6 @@
 LIBS = ["libvpsc", "libavoid", "libcola"]
 HARNESS = "harness/c20.cpp"
+EXTRA_FLAGS = ["-DUSE_ASSERT_EXCEPTIONS"]     # a failed COLA_ASSERT throws instead of aborting the stream (same flag set as C11: objects shared)
 DRIVER_MODE = "c20"
 LEAN_MODULES = ["AdaptaVerif.Props.C20"]
 LEVEL = "other"
